@@ -726,6 +726,10 @@ func VisitWithTypeInfo(ttypeInfo typeInfo.TypeInfoI, visitorOpts *VisitorOptions
 								ttypeInfo.Enter(result)
 							}
 						}
+					} else if action == ActionSkip {
+						// the node's subtree and its leave are skipped: undo
+						// what entering it pushed
+						ttypeInfo.Leave(node)
 					}
 					return action, result
 				}
